@@ -22,7 +22,6 @@ type wireType = wire.Type
 
 var wireTypes = wire.Types
 
-
 // filler populates values of the wire types with generated content.
 type filler struct {
 	r *rand.Rand
